@@ -160,6 +160,13 @@ func (w *World) snapDeliveries() map[uuid.UUID]*ent.Delivery {
 }
 
 // Resolve finds the delivery id for a Ref (uuid.Nil if none).
+func (w *World) noteHanded(id uuid.UUID) {
+	if w.handed == nil {
+		w.handed = map[uuid.UUID]bool{}
+	}
+	w.handed[id] = true
+}
+
 func (w *World) Resolve(r Ref) uuid.UUID {
 	sub, err := w.Client.Subscription.Query().Where(subscription.Name(SubName(r.Sub))).Order(ent.Desc(subscription.FieldCreatedAt)).First(qctx)
 	if err != nil {
@@ -176,6 +183,11 @@ func (w *World) Resolve(r Ref) uuid.UUID {
 		if json.Unmarshal(m.Payload, &p) == nil && p.N != nil && *p.N == r.N {
 			d, err := w.Client.Delivery.Query().Where(delivery.SubscriptionID(sub.ID), delivery.MessageID(m.ID)).First(qctx)
 			if err == nil {
+				// an ack id is a random UUID: a client can only name one it has been handed (a shrunk
+				// history may have lost the pull that delivered it: the reference then names nothing)
+				if d.Attempts == 0 && !w.handed[d.ID] {
+					return uuid.Nil
+				}
 				return d.ID
 			}
 		}
@@ -825,6 +837,7 @@ func (w *World) execPull(op Op, res *Result, hdr func(string) string) string {
 			if d.OrderKey != nil {
 				key = *d.OrderKey
 			}
+			w.noteHanded(d.ID)
 			res.Delivered = append(res.Delivered, Delivered{ID: d.ID, MsgID: d.MessageID, Attempt: d.NumAttempts,
 				Payload: string(d.Payload), Attrs: d.Attributes, Key: key, PubNs: ns(d.PublishedAt)})
 		}
@@ -863,6 +876,7 @@ func (w *World) execPullHandler(op Op, res *Result, hdr func(string) string) str
 			id, _ := uuid.Parse(rm.AckId)
 			mid, _ := uuid.Parse(rm.Message.MessageId)
 			parts[i] = fmt.Sprintf("%s#%d", IdStr(id), rm.DeliveryAttempt)
+			w.noteHanded(id)
 			res.Delivered = append(res.Delivered, Delivered{ID: id, MsgID: mid, Attempt: int(rm.DeliveryAttempt), Payload: string(rm.Message.Data),
 				Attrs: rm.Message.Attributes, Key: rm.Message.OrderingKey, PubNs: ns(rm.Message.PublishTime.AsTime())})
 		}
